@@ -448,6 +448,12 @@ class J1939_22:
                             if should_break:
                                 break
 
+                        if (buf['state'] == self.SendBufferState.SENDING_RTS_CTS) and (buf['next_packet_to_send'] >= buf['num_segments']):
+                            # nothing left to send (e.g. a CTS asked for a segment beyond the message):
+                            # wait for the next CTS / abort instead of spinning on an expired deadline
+                            buf['state'] = self.SendBufferState.WAITING_CTS
+                            buf['deadline'] = time.time() + self.Timeout.T3
+
                         # recalc next wakeup
                         if next_wakeup > buf['deadline']:
                             next_wakeup = buf['deadline']
